@@ -9,6 +9,7 @@ import (
 	"strings"
 	"sync"
 	"sync/atomic"
+	"syscall"
 	"time"
 
 	"hpverif/internal/core"
@@ -44,6 +45,8 @@ type faultPlan struct {
 	gate       func(name string, chunk int) // called before each source Read during a copy
 	// the next read-only Opens of the cache store fail with a transient error
 	storeOpenHiccups, hiccupsFired int
+	// seekFails: the source's files refuse to seek
+	seekFails bool
 }
 
 func (p *faultPlan) call(site string) error {
@@ -121,6 +124,10 @@ func (f *faultSrcFile) Read(p []byte) (int, error) {
 func (f *faultSrcFile) Stat() (hackpadfs.FileInfo, error) { return f.f.Stat() }
 func (f *faultSrcFile) Close() error                      { return f.f.Close() }
 func (f *faultSrcFile) Seek(off int64, wh int) (int64, error) {
+	if f.plan.seekFails {
+		// a source whose files have a Seek method that refuses (a pipe, a stream): an error of its own, not ErrNotImplemented
+		return 0, &hackpadfs.PathError{Op: "seek", Path: f.name, Err: syscall.ESPIPE}
+	}
 	return hackpadfs.SeekFile(f.f, off, wh)
 }
 func (f *faultSrcFile) ReadDir(n int) ([]hackpadfs.DirEntry, error) {
@@ -273,7 +280,7 @@ func c11cases(env *core.Env) []c11case {
 		for _, store := range []string{"minimal", "full", "minimal-writeback", "full-writeback"} {
 			cs = append(cs, c11case{Part: "fault", Size: size, Store: store})
 			if size >= 513 && (store == "minimal" || store == "full") {
-				cs = append(cs, c11case{Part: "fault", Size: size, Store: store, Source: "short"}, c11case{Part: "fault", Size: size, Store: store, Source: "partial"})
+				cs = append(cs, c11case{Part: "fault", Size: size, Store: store, Source: "short"}, c11case{Part: "fault", Size: size, Store: store, Source: "partial"}, c11case{Part: "fault", Size: size, Store: store, Source: "seekfail"})
 			}
 			// special mode bits make the cache take its chmod-the-copy path
 			for _, m := range []hackpadfs.FileMode{hackpadfs.ModeSetuid | 0o755, hackpadfs.ModeSticky | 0o644, hackpadfs.ModeSetgid | hackpadfs.ModeSticky | 0o700} {
@@ -291,6 +298,9 @@ func c11cases(env *core.Env) []c11case {
 	}
 	for i := 0; i < env.Pick(120, 1500); i++ {
 		cs = append(cs, c11case{Part: "faultgated", Rep: i})
+	}
+	for i := 0; i < env.Pick(16, 200); i++ {
+		cs = append(cs, c11case{Part: "stampede", Rep: i})
 	}
 	return cs
 }
@@ -373,6 +383,8 @@ func c11run(env *core.Env, idx int) core.CaseResult {
 		c11fault(env, cs, &res)
 	case "faultgated":
 		c11faultGated(env, cs, idx, &res)
+	case "stampede":
+		c11stampede(env, cs, idx, &res)
 	default:
 		c11concurrent(env, cs, idx, &res)
 	}
@@ -391,7 +403,7 @@ func c11fault(env *core.Env, cs c11case, res *core.CaseResult) {
 		res.Inconclusive = err.Error()
 		return
 	}
-	clean.plan.shortReads = cs.Source == "short"
+	clean.plan.shortReads, clean.plan.seekFails = cs.Source == "short", cs.Source == "seekfail"
 	if got, err := readAll(clean.cache, name); err != nil || string(got) != string(want) {
 		res.Violate(fmt.Sprintf("C11|%s|clean-fill|wrong", cs.Store), fmt.Sprintf("a fault-free first Open of a %d-byte file delivered %d bytes, err %v", cs.Size, len(got), err), cs)
 		return
@@ -415,7 +427,7 @@ func c11fault(env *core.Env, cs c11case, res *core.CaseResult) {
 		}
 		w.plan.failAt = k
 		w.plan.persistent = persistent
-		w.plan.shortReads, w.plan.partialRead = cs.Source == "short", cs.Source == "partial"
+		w.plan.shortReads, w.plan.partialRead, w.plan.seekFails = cs.Source == "short", cs.Source == "partial", cs.Source == "seekfail"
 		var f hackpadfs.File
 		var oerr error
 		if p := core.Recover(func() { f, oerr = w.cache.Open(name) }); p != "" {
@@ -545,6 +557,71 @@ func c11storeHiccup(cs c11case, name string, want []byte, files map[string][]byt
 			}
 		}
 	}
+}
+
+// c11stampede: round after round, several goroutines spinning on one flag open the SAME fresh name at the same instant
+// (the very first Open of that name: whatever is set up per name is set up now, by all of them at once). Every
+// successful open is complete and at most one copy per name is ever in progress.
+func c11stampede(env *core.Env, cs c11case, idx int, res *core.CaseResult) {
+	rounds := 150
+	files := map[string][]byte{}
+	for i := 0; i < rounds; i++ {
+		files[fmt.Sprintf("d/n%03d", i)] = c11data(600 + i%7*300)
+	}
+	w, err := newC11World([]string{"minimal", "full"}[cs.Rep%2], files)
+	if err != nil {
+		res.Inconclusive = err.Error()
+		return
+	}
+	k := 3 + cs.Rep%4
+	bad := ""
+	hung, confirmed := withWatchdog(func() {
+		for i := 0; i < rounds && bad == ""; i++ {
+			name := fmt.Sprintf("d/n%03d", i)
+			var ready, goFlag int32
+			outs := make([][]byte, k)
+			errs := make([]error, k)
+			var wg sync.WaitGroup
+			for g := 0; g < k; g++ {
+				wg.Add(1)
+				go func(g int) {
+					defer wg.Done()
+					atomic.AddInt32(&ready, 1)
+					for atomic.LoadInt32(&goFlag) == 0 {
+					}
+					outs[g], errs[g] = readAll(w.cache, name)
+				}(g)
+			}
+			for atomic.LoadInt32(&ready) < int32(k) {
+				runtime.Gosched()
+			}
+			atomic.StoreInt32(&goFlag, 1)
+			wg.Wait()
+			for g := 0; g < k; g++ {
+				if errs[g] == nil && string(outs[g]) != string(files[name]) {
+					bad = fmt.Sprintf("round %d: opener %d of %d simultaneous first opens of %q got %d of %d bytes without an error", i, g, k, name, len(outs[g]), len(files[name]))
+				}
+			}
+		}
+	})
+	wit := map[string]any{"case": cs, "openers": k, "rounds": rounds}
+	switch {
+	case hung && confirmed:
+		res.Violate("C11|concurrent|hang", "simultaneous first opens did not return; goroutine dump shows them parked on a lock", wit)
+		return
+	case hung:
+		res.Inconclusive = "simultaneous first opens did not finish"
+		return
+	}
+	if bad != "" {
+		res.Violate("C11|concurrent|stampede|partial", bad, wit)
+	}
+	if w.plan.maxWriters > 1 {
+		res.Violate(fmt.Sprintf("C11|concurrent|stampede|copies-in-progress=%d", min(w.plan.maxWriters, 2)), fmt.Sprintf("%d copies of one name were in progress in the cache store at the same time (%d goroutines opening each fresh name at the same instant, %d names)", w.plan.maxWriters, k, rounds), wit)
+	}
+	res.Nontrivial = true
+	res.Count("stampede_rounds", rounds)
+	res.Count("concurrent_groups", rounds)
 }
 
 func c11concurrent(env *core.Env, cs c11case, idx int, res *core.CaseResult) {
